@@ -11,7 +11,8 @@
 
 #ifdef __CPROVER__
 #include "rt.h"
-#define UNIT(name) F_##name
+#define UNIT_(name) F_##name
+#define UNIT(name) UNIT_(name)
 unsigned long long nondet_ull(void);
 unsigned long long verif_in[256];
 unsigned verif_nin;
@@ -52,10 +53,11 @@ int main(void) { rt_global_ctors(); return verif_body(); }
 #include <stdlib.h>
 #include <string.h>
 #ifdef VERIF_TWIN
-#define UNIT(name) F_##name
+#define UNIT_(name) F_##name
 #else
-#define UNIT(name) name
+#define UNIT_(name) name
 #endif
+#define UNIT(name) UNIT_(name)
 extern int verif_mode;            /* 0 = random, 1 = replay */
 unsigned long long verif_draw(unsigned long long lo, unsigned long long hi);
 void verif_assume_failed(void);
